@@ -700,11 +700,26 @@ static int parse_matrices(vnacal_load_state_t *vlsp, const vnacal_layout_t *vlp,
 	    const int el_rows    = VL_EL_ROWS(vlp);
 	    const int el_columns = VL_EL_COLUMNS(vlp);
 	    const int el_offset  = VL_EL_OFFSET(vlp);
-	    double complex *packed_um[um_terms][m_columns];
-	    double complex *packed_ui[ui_terms][m_columns];
-	    double complex *packed_ux[ux_terms][m_columns];
-	    double complex *packed_us[us_terms][m_columns];
+	    /* tables of pointers, on the heap: the dimensions come from the file */
+	    double complex **packed = NULL;
+	    double complex *(*packed_um)[m_columns];
+	    double complex *(*packed_ui)[m_columns];
+	    double complex *(*packed_ux)[m_columns];
+	    double complex *(*packed_us)[m_columns];
 	    double complex **el = &e[el_offset];
+	    int rv = -1;
+
+	    if ((packed = calloc((size_t)(um_terms + ui_terms + ux_terms +
+				us_terms) * m_columns + 1,
+			    sizeof(double complex *))) == NULL) {
+		_vnacal_error(vlsp->vls_vcp, VNAERR_SYSTEM,
+			"calloc: %s", strerror(errno));
+		return -1;
+	    }
+	    packed_um = (void *)packed;
+	    packed_ui = (void *)&packed_um[um_terms][0];
+	    packed_ux = (void *)&packed_ui[ui_terms][0];
+	    packed_us = (void *)&packed_ux[ux_terms][0];
 
 	    for (int m_column = 0; m_column < m_columns; ++m_column) {
 		const int um_offset = VL_UM14_OFFSET(vlp, m_column);
@@ -731,26 +746,29 @@ static int parse_matrices(vnacal_load_state_t *vlsp, const vnacal_layout_t *vlp,
 	    }
 	    if (parse_matrix(vlsp, &packed_um[0][0], um_terms, m_columns,
 			matrices[UM], false) == -1) {
-		return -1;
+		goto ue14_out;
 	    }
 	    if (parse_matrix(vlsp, &packed_ui[0][0], ui_terms, m_columns,
 			matrices[UI], false) == -1) {
-		return -1;
+		goto ue14_out;
 	    }
 	    if (parse_matrix(vlsp, &packed_ux[0][0], ux_terms, m_columns,
 			matrices[UX], false) == -1) {
-		return -1;
+		goto ue14_out;
 	    }
 	    if (parse_matrix(vlsp, &packed_us[0][0], us_terms, m_columns,
 			matrices[US], false) == -1) {
-		return -1;
+		goto ue14_out;
 	    }
 	    if (parse_matrix(vlsp, el, el_rows, el_columns,
 			matrices[EL], true) == -1) {
-		return -1;
+		goto ue14_out;
 	    }
+	    rv = 0;
+	ue14_out:
+	    free((void *)packed);
+	    return rv;
 	}
-	return 0;
 
     case VNACAL_E12:
 	{
@@ -759,9 +777,22 @@ static int parse_matrices(vnacal_load_state_t *vlsp, const vnacal_layout_t *vlp,
 	    const int el_terms  = VL_EL12_TERMS(vlp);
 	    const int er_terms  = VL_ER12_TERMS(vlp);
 	    const int em_terms  = VL_EM12_TERMS(vlp);
-	    double complex *packed_el[el_terms][m_columns];
-	    double complex *packed_er[er_terms][m_columns];
-	    double complex *packed_em[em_terms][m_columns];
+	    /* tables of pointers, on the heap: the dimensions come from the file */
+	    double complex **packed = NULL;
+	    double complex *(*packed_el)[m_columns];
+	    double complex *(*packed_er)[m_columns];
+	    double complex *(*packed_em)[m_columns];
+	    int rv = -1;
+
+	    if ((packed = calloc((size_t)(el_terms + er_terms + em_terms) *
+			    m_columns + 1, sizeof(double complex *))) == NULL) {
+		_vnacal_error(vlsp->vls_vcp, VNAERR_SYSTEM,
+			"calloc: %s", strerror(errno));
+		return -1;
+	    }
+	    packed_el = (void *)packed;
+	    packed_er = (void *)&packed_el[el_terms][0];
+	    packed_em = (void *)&packed_er[er_terms][0];
 
 	    for (int m_column = 0; m_column < m_columns; ++m_column) {
 		const int el_offset = VL_EL12_OFFSET(vlp, m_column);
@@ -788,23 +819,27 @@ static int parse_matrices(vnacal_load_state_t *vlsp, const vnacal_layout_t *vlp,
 		assert(el_terms == m_rows);
 		assert(er_terms == m_rows);
 		assert(em_terms == m_rows);
-		return parse_old_e_matrix(vlsp, e_matrices,
+		rv = parse_old_e_matrix(vlsp, e_matrices,
 			m_rows, m_columns, matrices[E]);
+		goto e12_out;
 	    }
 	    if (parse_matrix(vlsp, &packed_el[0][0], el_terms, m_columns,
 			matrices[EL], false) == -1) {
-		return -1;
+		goto e12_out;
 	    }
 	    if (parse_matrix(vlsp, &packed_er[0][0], er_terms, m_columns,
 			matrices[ER], false) == -1) {
-		return -1;
+		goto e12_out;
 	    }
 	    if (parse_matrix(vlsp, &packed_em[0][0], em_terms, m_columns,
 			matrices[EM], false) == -1) {
-		return -1;
+		goto e12_out;
 	    }
+	    rv = 0;
+	e12_out:
+	    free((void *)packed);
+	    return rv;
 	}
-	return 0;
 
     default:
 	abort();
